@@ -26,6 +26,31 @@ TEXT = {
   level="Exploration over histories and schedules: (a) deterministic sequential histories (writer held inside next() with one entry in hand) compared exactly with a displace-oldest reference ring incl. the overflow counter; (b) 1-6 producers against a stalled/slow/free writer: per-producer order, conservation appended = delivered + overflow counter, every lost entry has >= capacity later appends; appends must return while the stream gate is closed.",
   note="Trusted: the gate protocol that makes (a) sequential (waits for the stream's own 'blocked' flag); local metrics recorder for the counter.",
   ref="DESIGN.md §7 C09"),
+ "C02": dict(
+  technique="runtime monitoring: differential of formatter output against a strict RFC 8259 parser over generated hostile entries/configurations; Miri + ASan on the unsafe string path",
+  level="Exploration over inputs and configurations: ~10^5-10^6 generated entries per run (hostile names/strings, NaN/inf/zero-occurrence observations in every position with all skip masks enumerated for lists up to 6, all units, dimensions, flags, every listed defect, in-band errors) x formatter configurations x sampling; the oracle parses every emitted line strictly and checks the _aws structure; a validation error must leave zero bytes. Formats into failing writers are interleaved so that a later success on the same formatter is also checked.",
+  note="Trusted: vcommon::strict_json (cross-checked against serde_json on every line; disagreement = inconclusive).",
+  ref="DESIGN.md §7 C02"),
+ "C03": dict(
+  technique="runtime monitoring: differential of parsed formatter output against an independent reference interpretation of the recorded entry",
+  level="Exploration over inputs and configurations: generated entries inside the documented domain are formatted by the real formatter and, independently, replayed into a recording writer from which a reference (written from the documentation, no shared code) computes the expected set of records: members, exact number tokens, Values/Counts, per-namespace definitions with unit and storage resolution, dimension sets, Timestamp, LogGroupName; compared as a multiset of records.",
+  note="Trusted: the reference in checks/src/emf_util.rs; the documented domain as encoded by the generator (unique names, declared dimensions written as strings...).",
+  ref="DESIGN.md §7 C03"),
+ "C08": dict(
+  technique="runtime monitoring: reference validity predicate + transparency differential + duplicate-member detection, in debug and release builds",
+  level="Exploration over inputs and configurations in both build profiles: valid entries with 0-3 injected defects of every listed kind; must-reject entries have to yield a validation error and zero bytes wherever validation is documented to be on; valid entries must be accepted with output identical (multiset of lines) to the non-validating formatter, also on a long-lived formatter after earlier rejected entries; every accepted record is scanned for duplicate member names by a duplicate-preserving parser. Known finding F4 is matched by signature and reported as KNOWN-FINDING.",
+  note="Trusted: the reference predicate; 'validation promised' = Emf::all_validations in every profile, Emf::builder() only with debug assertions (as documented).",
+  ref="DESIGN.md §7 C08"),
+ "C14": dict(
+  technique="runtime monitoring: differential long-lived formatter vs fresh formatter at every position of generated entry sequences",
+  level="Exploration over histories: sequences of 2-20 items (valid, each defect, split, entry dimensions, in-band error report, multi-megabyte, failing writer) on one long-lived plain or sampled formatter; at every position decision and records must equal those of a fresh formatter.",
+  note="Trusted: multiset-of-lines comparison; Timestamp masking for entries without timestamp (with a lower bound check).",
+  ref="DESIGN.md §7 C14"),
+ "C16": dict(
+  technique="runtime monitoring with fault injection: scripted io::Write / EntryIoStream objects, byte-exact oracle against reference records; Miri + ASan on the vectored-write loop",
+  level="Fault enumeration: for every generated record (single, multi-namespace, split into 2-4 lines) every first-write size k in 1..L is tried for vectored and plain writers, then hundreds of random scripts of short writes / Interrupted / Ok(0) / hard errors; received bytes must be a permutation of the reference lines (or a prefix of one on error) and the next entry must be intact. Sinks (queue, FlushImmediately x3, tee) are driven with streams that fail per entry and on flush; each stream must see every entry exactly once.",
+  note="Trusted: the scripted writer/stream as fault model; reference bytes from a Vec writer.",
+  ref="DESIGN.md §7 C16"),
 }
 
 NOT_YET = "check not built yet in this round (design in DESIGN.md §7); not claimed"
